@@ -195,7 +195,12 @@ func c13Model(c *hx.Ctx, r *hx.RNG) {
 		} else {
 			// the whole value lies below the last printed place: 0 or one unit
 			d := r.Digits(r.Range(1, 30))
-			if r.Bool() {
+			if r.Chance(30) { // a half unit followed by zeros and, far below (possibly in a lower mantissa word), something or nothing
+				d = append([]byte("5"), []byte(strings.Repeat("0", r.Range(0, 45)))...)
+				if r.Chance(70) {
+					d = append(d, '1'+byte(r.Intn(9)))
+				}
+			} else if r.Bool() {
 				d[0] = "455691"[r.Intn(6)]
 				if r.Chance(40) {
 					d = d[:1]
